@@ -66,7 +66,8 @@ Enabled(op, a) ==
     [] op = "poke_gaps"    -> Dom_Poke(p, a[1], 0)
     [] op = "eq_k"         -> a[1] \in {"same", "alph"} \/ Len(p.rows) > 0
     [] op = "str"          -> Dom_StrLetters(p)
-    [] op \in {"seqprob_k", "seqscore_k"} -> Dom_ProductFits(p, <<>>, a[1])
+    [] op = "seqprob_k"    -> Dom_ProbProductFits(p, a[1])
+    [] op = "seqscore_k"   -> Dom_ProductFits(p, <<>>, a[1])
     [] OTHER -> TRUE
 
 Concrete(op, a) ==
